@@ -859,7 +859,8 @@ def run(ctx):
         if o != expected and o != "SKIPPED":
             failures.setdefault(name, []).append((expr, expected, sc, clock, o))
     ctx.cov["schedule_kinds"] = dist
-    ctx.cov["programs"] = [p[1] for p in progs]
+    ctx.cov["program_names"] = [p[1] for p in progs]
+    ctx.cov["programs"] = len(progs)
     nshrunk = 0
     for name, fl in failures.items():
         expr, expected, sc, clock, o = fl[0]
